@@ -1209,7 +1209,13 @@ class Engine:
             en = self.deref_val(args[0]); it = en.fields['__iter']
             n = self.iter_len(it)
             i = it.fields['__idx']
-            if not isinstance(n, int): return None
+            if n is None: return None
+            if not isinstance(n, int):
+                if i >= LIST_K: return EnumV('Option', 0, {})       # unwinding assumption len <= LIST_K (asserted by fresh())
+                def some_(ns, a2):
+                    it2 = self.deref_val(a2[0]).fields['__iter']; it2.fields['__idx'] = i + 1
+                    return EnumV('Option', 1, {1: {0: StructV('tuple', 't', {0: IntV(z3.IntVal(i), 'usize'), 1: self.iter_elem_ref(it2, i)}, lazy=False)}})
+                return ForkResult([(n > i, some_), (n <= i, lambda ns, a2: EnumV('Option', 0, {}))])
             if i >= n: return EnumV('Option', 0, {})
             it.fields['__idx'] = i + 1
             return EnumV('Option', 1, {1: {0: StructV('tuple', 't', {0: IntV(z3.IntVal(i), 'usize'), 1: self.iter_elem_ref(it, i)}, lazy=False)}})
@@ -1227,10 +1233,16 @@ class Engine:
                 if i >= n_: return EnumV('Option', 0, {})
                 it.fields['__idx'] = i + 1
                 return EnumV('Option', 1, {1: {0: self.iter_elem_ref(it, i)}})
-            i = it.fields['__idx']; it.fields['__idx'] = i + 1
+            i = it.fields['__idx']
             ln = lv.fields['__len'].e
             if i >= LIST_K:
                 return EnumV('Option', 0, {})
+            if getattr(self, 'fork_iter_next', True):
+                def some2_(ns, a2):
+                    it2 = self.deref_val(a2[0]); it2.fields['__idx'] = i + 1
+                    return EnumV('Option', 1, {1: {0: self.iter_elem_ref(it2, i)}})
+                return ForkResult([(ln > i, some2_), (ln <= i, lambda ns, a2: EnumV('Option', 0, {}))])
+            it.fields['__idx'] = i + 1
             if i not in lv.fields:
                 lv.fields[i] = self.ex.fresh(lv.fields['__elemty'], f'{lv.name}[{i}]')
             d = z3.simplify(z3.If(i < ln, 1, 0))
